@@ -322,7 +322,7 @@ func main() {
 			RunPath: func(p []uint16) (uint64, explore.Status) { return runPath(c, p) }}
 	}
 	if r.Replay != "" {
-		r.Fault("replay: apply detail.frames to a guest Vaxis over emucon; not implemented")
+		r.ReplayBySearch()
 	}
 	if _, _, arg, ok := r.Worker(); ok {
 		r.Watchdog(60 * time.Second)
